@@ -169,6 +169,29 @@ def random_rc(rng, nr, nc, thorough):
     return rc
 
 
+def sweep_rcs(nr, nc, thorough):
+    """every resampling routine with enough samples that NaN samples AND >= 2 usable samples occur, so that the
+    variance clauses (NaN samples excluded, per-resample means, cv correction) are decided on every routine"""
+    N = 8 if not thorough else 14
+    base = {'routine': 'boot', 'bootR': False, 'bootP': False, 'cv': 'none', 'nCv': 1, 'N': N, 'kR': 1, 'kP': 1, 'byR': 'subj',
+            'byP': 'cond', 'bootNc': True, 'nM': 3, 'plR': 2, 'plP': 2}
+    out = []
+    types = [(True, True), (True, False), (False, True)]
+    for k, bt in enumerate(types):
+        for bnc in (True, False):
+            out.append(dict(base, bootR=bt[0], bootP=bt[1], bootNc=bnc, byP='cond' if bt[1] else 'index',
+                            byR=['subj', 'index', 'grp'][k], plR=9, plP=9))
+        for ncv in (1, 2):
+            out.append(dict(base, routine='bootcv', bootR=bt[0], bootP=bt[1], cv='kfold', nCv=ncv, kR=2, kP=1,
+                            byR=['index', 'subj', 'index'][k], byP=['cond', 'index', 'index'][k]))
+        out.append(dict(base, routine='dualrand', bootR=bt[0], bootP=bt[1], cv='random', nCv=2, kR=1, kP=0,
+                        byR=['subj', 'index', 'subj'][k], byP=['index', 'cond', 'cond'][k]))
+    for ncv in (1, 2):
+        out.append(dict(base, routine='dual', bootR=True, bootP=True, cv='kfold', nCv=ncv, kR=2, kP=1, nM=2, N=min(N, 8),
+                        byR='index', byP='index'))
+    return out
+
+
 def _run_chunk(args):
     out = []
     for (idx, rc, const, seed, thorough) in args:
@@ -254,6 +277,9 @@ MACHINERY_WHY = ('draw-not-admissible', 'sets-not-admissible', 'unknown-event')
 def record_and_validate(ctx, const, n, thorough, label):
     rng = np.random.default_rng(ctx.seed * 9176 + const['NR'] * 31 + const['NC'])
     jobs = [(i, random_rc(rng, const['NR'], const['NC'], thorough), const, ctx.seed, thorough) for i in range(n)]
+    if const['NC'] <= 4:
+        sw = sweep_rcs(const['NR'], const['NC'], thorough)
+        jobs += [(n + k, rc, const, ctx.seed, thorough) for k, rc in enumerate(sw + sw)]
     chunks = [jobs[k::NPROC * 4] for k in range(NPROC * 4)]
     with mp.Pool(NPROC) as pool:
         results = [x for ch in pool.map(_run_chunk, [c for c in chunks if c]) for x in ch]
